@@ -338,6 +338,28 @@ func (db *DB) setActiveSchemaVersion(
 		activeCol, isActiveFound = db.getActiveCollectionUp(ctx, colsBySourceID, rootCol.VersionID)
 	}
 
+	if isActiveFound {
+		// The index entries are stored per collection, the list of indexes per collection version,
+		// and index DDL only rewrites the version it is called on. The version being activated takes
+		// over the indexes that are being maintained now, otherwise writes made through it would
+		// maintain a stale set of indexes. An index over a field this version does not have cannot
+		// be maintained by it and is left out.
+		indexes := make([]client.IndexDescription, 0, len(activeCol.Indexes))
+		for _, index := range activeCol.Indexes {
+			hasAllFields := true
+			for _, field := range index.Fields {
+				if _, ok := schema.GetFieldByName(field.Name); !ok {
+					hasAllFields = false
+					break
+				}
+			}
+			if hasAllFields {
+				indexes = append(indexes, index)
+			}
+		}
+		col.Indexes = indexes
+	}
+
 	col.IsActive = true
 	err = description.SaveCollection(ctx, col)
 	if err != nil {
